@@ -1389,3 +1389,7 @@ def run(ctx, shard):
     ctx.extra['labels_in_registry'] = len(reg.labels)
     ctx.extra['certificates_rejected'] = reg.rejected
     ctx.extra['reference_min_pt_eigenvalue_over_labelled_states'] = reg.min_pt_eig
+
+
+# thorough tier: every random shard is run this many times with independent random streams (see vmon/runner.py get_shards)
+THOROUGH_REPEAT = 2
